@@ -4,7 +4,7 @@
    Property theorems only; each is closed by [exact] of a lemma proved in proofs/. *)
 From SQ Require Import lib.Base gen.Gen_C17.
 From SQ Require model.Spsc model.SpscExplore proofs.SpscClose proofs.SpscData proofs.SpscProofs proofs.SpscWake proofs.SpscWakeInv proofs.SpscWakeThm proofs.SpscFix.
-From SQ Require model.CursorRing model.Worker model.RxRing proofs.CursorProofs proofs.WorkerProofs proofs.RxRingProofs.
+From SQ Require model.CursorRing model.Worker model.RxRing model.TxRings proofs.CursorProofs proofs.WorkerProofs proofs.RxRingProofs proofs.TxRingsProofs.
 Import Spsc.
 Local Open Scope N_scope.
 
@@ -39,7 +39,9 @@ Theorem C17_orderings :
   Gen_C17.close_pre_wake_sender = 1 /\ Gen_C17.close_post_wake_sender = 1 /\
   Gen_C17.close_pre_wake_receiver = 1 /\ Gen_C17.close_post_wake_receiver = 1 /\
   (* platform rx task: the deferred consumer wake-up is also issued on the early-return path of poll_ring! *)
-  Gen_C17.rx_early_return_wakes = 1.
+  Gen_C17.rx_early_return_wakes = 1 /\
+  (* platform tx queue: push wakes the ring it leaves, flush_channel wakes channels.get_mut(channel_index) *)
+  Gen_C17.tx_spill_flushes = 1 /\ Gen_C17.tx_flush_clamps = 0.
 Proof. repeat split; reflexivity. Qed.
 
 (* Every schedule (list of thread choices), every producer / consumer program, every internal
@@ -171,6 +173,22 @@ Theorem C17_rxring_no_lost_wakeup : forall size script s s' code,
   RxRing.cw s' = false /\ (RxRing.cw s = true -> RxRing.cwakes s < RxRing.cwakes s').
 Proof. exact RxRingProofs.rx_task_no_lost_wakeup. Qed.
 
+(* ---------------------------------------------------------------------------------------- *)
+(* platform tx queue over several socket rings (socket/io/tx.rs), sequential                 *)
+(* ---------------------------------------------------------------------------------------- *)
+(* Tx::queue with any burst of pushes, any number of rings, any ring size and any prior state of the
+   rings and wakers: afterwards every ring that received at least one message has its consumer's
+   (socket task's) waker cell empty, a consumer that was parked has had its waker invoked during the
+   call, and no ring is left owed a wake-up. *)
+Theorem C17_txrings_no_lost_wakeup : forall size n s s' done,
+  (forall j x, nth_error (TxRings.rings s) j = Some x -> TxRings.towed x = false) ->
+  TxRings.queue_push size n s = (s', done) ->
+  forall j x0 x', nth_error (TxRings.rings s) j = Some x0 -> nth_error (TxRings.rings s') j = Some x' ->
+    TxRings.towed x' = false /\
+    (CursorRing.tw (TxRings.tc x0) < CursorRing.tw (TxRings.tc x') ->
+     TxRings.tcw x' = false /\ (TxRings.tcw x0 = true -> TxRings.tcwk x0 < TxRings.tcwk x')).
+Proof. exact TxRingsProofs.tx_no_lost_wakeup. Qed.
+
 (* the executable judgement of the `rxring` component accepts every run of the model *)
 Theorem C17_rxring_judge_model : forall case, RxRing.judge case (RxRing.run case) = true.
 Proof. exact RxRingProofs.rxring_judge_run. Qed.
@@ -189,3 +207,4 @@ Print Assumptions C17_rxring_no_lost_wakeup.
 Print Assumptions C17_cursor_judge_model.
 Print Assumptions C17_spsc_quiescent_wake.
 Print Assumptions C17_rxring_judge_model.
+Print Assumptions C17_txrings_no_lost_wakeup.
